@@ -1340,13 +1340,14 @@ def stream_kwloop(ctx):
 def hygiene(ctx):
     """grep gate on the files of this property (no axioms / admits / guard switches)"""
     from common import ROCQ
-    bad = re.compile(r'\b(Axiom|Axioms|Parameter|Parameters|Conjecture|Admitted|admit|Hypothesis|Variable)\b|Unset\s+Guard|type-in-type|'
-                     r'\bhammer\b|native_compute')
+    bad = re.compile(r'^\s*(?:Local\s+|Global\s+|#\[[^\]]*\]\s*)*(Axiom|Axioms|Parameter|Parameters|Conjecture|Hypothesis|Hypotheses|'
+                     r'Variable|Variables)\b|\b(Admitted|admit|give_up)\b|Unset\s+Guard|type-in-type|\bhammer\b|native_compute')
     for rel_ in ('Model/Alias.v', 'Proofs/AliasP.v', 'Properties/C20.v', 'Gen/AliasTable.v'):
         p = ROCQ / rel_
         if not p.exists():
             continue
         txt = re.sub(r'\(\*.*?\*\)', '', p.read_text(), flags=re.S)
+        txt = re.sub(r'"(?:[^"]|"")*"', '""', txt)  # string literals are data (class names such as "Variable")
         in_section = 0
         for ln in txt.splitlines():
             if re.match(r'\s*Section\b', ln):
@@ -1354,7 +1355,7 @@ def hygiene(ctx):
             if re.match(r'\s*End\b', ln) and in_section:
                 in_section -= 1
             m = bad.search(ln)
-            if m and not (m.group(1) in ('Variable', 'Hypothesis') and in_section):
+            if m and not (m.group(1) in ('Variable', 'Variables', 'Hypothesis', 'Hypotheses') and in_section):
                 ctx.broken.append({'kind': 'obligation', 'name': f'{rel_}:hygiene', 'detail': f'forbidden token in: {ln.strip()[:120]}'})
 
 
